@@ -934,3 +934,75 @@ M("C11.rev_fix_period_after_first_dot", ["C11"], "emitter/file/src/lib.rs",
   "    file_name.rsplit('.').nth(3).ok_or_else(|| {", "    file_name.split('.').skip(1).next().ok_or_else(|| {", "C11.R5:reader-any-prefix")
 M("C11.period_counted_wrong_from_end", ["C11"], "emitter/file/src/lib.rs",
   "    file_name.rsplit('.').nth(3).ok_or_else(|| {", "    file_name.rsplit('.').nth(2).ok_or_else(|| {", "C11.R5:reader-any-prefix")
+
+# ---- round 4: reverse patch of fix aac7257 (D19) and hand mutants for the rules added with it -----------------------------------
+M("C13.rev_fix_file_record_closes_over_error", ["C13"], "emitter/file/src/lib.rs",
+  """            let mut r = Ok(());
+
+            let _ = self.0.props().dedup().for_each(|k, v| {
+                match (|| {
+                    stream.record_value_begin(None, &sval::Label::new_computed(k.get()))?;
+                    stream.value_computed(&v)?;
+                    stream.record_value_end(None, &sval::Label::new_computed(k.get()))?;
+
+                    Ok::<(), sval::Error>(())
+                })() {
+                    Ok(()) => ControlFlow::Continue(()),
+                    Err(e) => {
+                        r = Err(e);
+                        ControlFlow::Break(())
+                    }
+                }
+            });
+
+            // A property that failed to stream leaves the record incomplete
+            r?;
+""", """            let _ = self.0.props().dedup().for_each(|k, v| {
+                match (|| {
+                    stream.record_value_begin(None, &sval::Label::new_computed(k.get()))?;
+                    stream.value_computed(&v)?;
+                    stream.record_value_end(None, &sval::Label::new_computed(k.get()))?;
+
+                    Ok::<(), sval::Error>(())
+                })() {
+                    Ok(()) => ControlFlow::Continue(()),
+                    Err(_) => ControlFlow::Break(()),
+                }
+            });
+""", "C13.R5.errors")
+M("C13.file_record_error_slot_unchecked", ["C13"], "emitter/file/src/lib.rs",
+  """            // A property that failed to stream leaves the record incomplete
+            r?;
+""", """            let _ = r;
+""", "C13.R5.errors")
+M("C15.id_buffer_overflow_ignored_u128", ["C15"], "src/span.rs",
+  """        write!(self, "{}", value).map_err(|_| ParseIdError {})?;""", """        write!(self, "{}", value).ok();""", "C15.R1:results-inspected")
+M("C15.path_append_from_raw_text", ["C15"], "core/src/path.rs",
+  "        Path::new_str(value.cast()?).ok()", "        Some(Path::new_str_raw(value.cast()?))", "C15.R3:unvalidated-paths")
+M("C15.new_str_ignores_grammar", ["C15"], "core/src/path.rs",
+  "        if is_valid_path(path.get()) {\n            Ok(Path(path))", "        if is_valid_path(path.get()) || true {\n            Ok(Path(path))", "C15.R3:unvalidated-paths")
+M("C15.leap_shortcut_to_2100", ["C15"], "core/src/timestamp.rs",
+  "        if year as u64 <= 138 {", "        if year as u64 <= 200 {", "C15.R5:four-year-shortcut")
+M("C16.render_literal_shortcut", ["C16"], "core/src/template.rs",
+  """        for part in self.tpl.0.parts() {
+            part.write(&mut writer, &self.props)?;
+        }
+""", """        if let Some(text) = self.as_literal() {
+            return writer.write_str(text.get());
+        }
+
+        for part in self.tpl.0.parts() {
+            part.write(&mut writer, &self.props)?;
+        }
+""", "C16.R2:Render::write")
+M("C17.from_iter_reversed", ["C17"], "src/level.rs",
+  "            for (path, min_level) in iter {\n                map.min_level(path, min_level);",
+  "            for (path, min_level) in iter.into_iter().collect::<Vec<_>>().into_iter().rev() {\n                map.min_level(path, min_level);", "C17.R5:from_iter")
+M("C13.sum_points_wrapping", ["C13"], "emitter/otlp/src/data/metrics.rs",
+  """            NumberDataPointValue::AsInt(AsInt(current)) => current
+                .checked_add(value)
+                .map(|value| NumberDataPointValue::AsInt(AsInt(value)))
+                .unwrap_or(NumberDataPointValue::AsDouble(AsDouble(f64::INFINITY))),""",
+  """            NumberDataPointValue::AsInt(AsInt(current)) => {
+                NumberDataPointValue::AsInt(AsInt(current.wrapping_add(value)))
+            }""", "C13.R6:point-arithmetic")
